@@ -22,6 +22,8 @@ def build_graph(case):
         G.add_edge(L[a], L[b])
         G.edges[L[a], L[b]][NN.TOPOLOGY] = t
         G.edges[L[a], L[b]][NN.MOTIF_IDS] = m
+        if case.get("weights"):           # annotated networks may carry further edge attributes; they are not part of the mixing
+            G.edges[L[a], L[b]]["weight"] = [0.0, 2.5, 1.0, 7][(a + b + m) % 4]
     return G
 
 
@@ -79,7 +81,7 @@ def cases(chk):
         if rng.random() < 0.3:      # annotations need not agree with the actual degrees: the law is stated on annotations
             jd = [tuple(max(1, x + rng.choice([0, 0, 1])) for x in j) for j in jd]
         cs.append({"edges": es, "jd": jd, "tops": tops, "ncalls": rng.choice([1, 2, 3, 4]), "labels": rng.choice(["id", "shift", "big"]),
-                   "jd_as_list": i % 3 == 1})          # annotations stored as lists (the generators keep whatever sequence they get)
+                   "jd_as_list": i % 3 == 1, "weights": i % 4 == 3})          # annotations stored as lists (the generators keep whatever sequence they get)
     return cs
 
 
